@@ -448,3 +448,32 @@ def validate_traces(module, cfg, traces, spec_dir, out_dir, tag="trace", timeout
     elif res.violated and not v.rejected and res.kind != "postcondition":
         v.invariant = res.violated
     return v
+
+
+# --------------------------------------------------------------------------
+# C44: the real PeakStats callback fed with documents
+# --------------------------------------------------------------------------
+def peakstats_run(xs, ys, edge=None):
+    """start / descriptor / event... / stop through bluesky.callbacks.fitting.PeakStats; returns its attributes"""
+    import warnings
+    from bluesky.callbacks.fitting import PeakStats
+    ps = PeakStats("mot", "det", edge_count=edge)
+    with warnings.catch_warnings():
+        warnings.simplefilter("ignore")
+        ps("start", {"uid": "run", "time": 0.0, "scan_id": 1})
+        ps("descriptor", {"uid": "desc", "run_start": "run", "time": 0.0, "name": "primary",
+                          "data_keys": {"mot": {"source": "v", "dtype": "number", "shape": []},
+                                        "det": {"source": "v", "dtype": "number", "shape": []}}})
+        for i, (a, b) in enumerate(zip(xs, ys)):
+            ps("event", {"uid": f"ev{i}", "descriptor": "desc", "seq_num": i + 1, "time": float(i),
+                         "data": {"mot": a, "det": b}, "timestamps": {"mot": 0.0, "det": 0.0}})
+        ps("stop", {"uid": "stop", "run_start": "run", "time": 1.0, "exit_status": "success"})
+
+    def num(v):
+        return None if v is None else float(v)
+    return {"max": None if ps.max is None else (float(ps.max[0]), float(ps.max[1])),
+            "min": None if ps.min is None else (float(ps.min[0]), float(ps.min[1])),
+            "com": num(ps.com), "cen": num(ps.cen),
+            "crossings": None if ps.crossings is None else [float(v) for v in ps.crossings],
+            "fwhm": num(ps.fwhm),
+            "lin_bkg": None if ps.lin_bkg is None else (float(ps.lin_bkg["m"]), float(ps.lin_bkg["b"]))}
